@@ -74,4 +74,50 @@ theorem shouldSkipList_follows_source (eng : Engine) (exactCase : Bool) (path : 
       simp [this]
     · simp [hb, Generated.Decisions.shouldSkip, skipOn]
 
+/-! ## `compileRegexp`, `NewPatternMatcher` -/
+
+/-- the expression text on each path of `compileRegexp`, or `none` where the path reports "invalid regexp" -/
+def compileRegexpOn (pattern : String) (label : String) : Option String :=
+  let cs := pattern.toList
+  let inner := String.ofList ((cs.drop 1).take (cs.length - 2))
+  let quoted := "^" ++ quoteMeta pattern ++ "$"
+  match label with
+  | "expr=pattern[1 : len(pattern)-1]; expr=\"(?i)\" + expr; return re, nil" => some ("(?i)" ++ inner)
+  | "expr=pattern[1 : len(pattern)-1]; return re, nil" => some inner
+  | "expr=fmt.Sprintf(); expr=\"(?i)\" + expr; return re, nil" => some ("(?i)" ++ quoted)
+  | "expr=fmt.Sprintf(); return re, nil" => some quoted
+  | _ => none
+
+/-- **`compileRegexp` follows the source**: the text between the slashes or the anchored quoted
+literal, `(?i)` in front when the case rule is off, "invalid regexp" when it does not compile (C19) -/
+theorem compileRegexp_follows_source (eng : Engine) (pattern : String) (exactCase : Bool) :
+    (if eng.compiles (compileExpr pattern exactCase) then some (compileExpr pattern exactCase) else none) =
+      compileRegexpOn pattern (Generated.Decisions.compileRegexp (pattern.toList.head? == some '/')
+        (pattern.toList.getLast? == some '/') (decide (2 ≤ pattern.toList.length)) exactCase
+        (!eng.compiles (compileExpr pattern exactCase))) := by
+  unfold Generated.Decisions.compileRegexp compileExpr baseExpr
+  cases h0 : (pattern.toList.head? == some '/') <;> cases h1 : (pattern.toList.getLast? == some '/') <;>
+    cases h2 : decide (2 ≤ pattern.toList.length) <;> cases exactCase <;>
+    simp [h0, h1, compileRegexpOn] <;>
+    (first
+      | (have h2' : ¬ (2 ≤ pattern.toList.length) := by simpa using h2
+         simp [h2']
+         split <;> simp_all)
+      | (have h2' : 2 ≤ pattern.toList.length := by simpa using h2
+         simp [h2']
+         split <;> simp_all)
+      | (split <;> simp_all))
+
+/-- **`NewPatternMatcher` follows the source**: the error of `compileRegexp` is passed on, otherwise
+the matcher remembers pattern and case rule -/
+theorem newPatternMatcher_follows_source (eng : Engine) (pattern : String) (exactCase : Bool) :
+    PM.new eng pattern exactCase =
+      (match Generated.Decisions.newPatternMatcher (!eng.compiles (compileExpr pattern exactCase)) with
+       | "return nil, err" => none
+       | "return &PatternMatcher{ pattern: pattern, re: re, exactCase: exactCase, }, nil" =>
+         some ⟨pattern, exactCase, true⟩
+       | _ => none) := by
+  unfold PM.new Generated.Decisions.newPatternMatcher
+  cases eng.compiles (compileExpr pattern exactCase) <;> simp
+
 end Convergen.Bridge.Decisions
